@@ -43,6 +43,8 @@ type Program struct {
 	declOf   map[*types.Func]*ast.FuncDecl
 	expanded map[*ssa.Function]bool
 	bce      *BCE
+	ownFuncs []*ssa.Function
+	Memo     map[string]any // per-program results of expensive rule-side computations
 	gclasses map[string]*GClass
 	fnNames  map[*ssa.Function]string
 	bceErr   error
@@ -386,6 +388,9 @@ func (p *Program) AllFuncs() map[*ssa.Function]bool {
 // OwnFuncs returns the SSA functions declared in go-upf packages (non-test), sorted by position.
 // Package testtools/upftest (a manual test client) is excluded.
 func (p *Program) OwnFuncs() []*ssa.Function {
+	if p.ownFuncs != nil {
+		return append([]*ssa.Function(nil), p.ownFuncs...)
+	}
 	var out []*ssa.Function
 	for fn := range p.AllFuncs() {
 		if !p.IsOwnFn(fn) || fn.Blocks == nil {
@@ -424,7 +429,8 @@ func (p *Program) OwnFuncs() []*ssa.Function {
 		}
 		return out[i].String() < out[j].String()
 	})
-	return out
+	p.ownFuncs = out
+	return append([]*ssa.Function(nil), out...)
 }
 
 func FnPkg(fn *ssa.Function) *types.Package {
